@@ -178,6 +178,17 @@ class SymEval:
             return self.obj(v.path + "." + fname, ftype)
         raise Decline("field %s of a non-record value" % fname)
 
+    def materialize(self, v, depth=0):
+        """Deep copy of the current state of a value (by-value copy semantics)."""
+        if isinstance(v, Lazy) and v.cls in self.p.records and depth < 4:
+            r = self.p.records[v.cls]
+            return Rec(v.cls, {f["name"]: self.materialize(self.obj(v.path + "." + f["name"], f["t"]), depth + 1) for f in r["fields"]})
+        if isinstance(v, Rec):
+            return Rec(v.cls, {k: self.materialize(x, depth + 1) for k, x in v.f.items()})
+        if isinstance(v, Tup):
+            return Tup([self.materialize(x, depth + 1) for x in v.items])
+        return v
+
     def record_of(self, v):
         """Materialise a Lazy of a repository record class into a Rec of its fields (one level)."""
         if isinstance(v, Rec):
@@ -586,8 +597,11 @@ class SymEval:
             else:
                 fields[f["name"]] = None
         if not args and not tks:
-            if any(v is None for v in fields.values()):
-                raise Decline("default construction of %s leaves fields indeterminate" % cls)
+            self.fresh_n = getattr(self, "fresh_n", 0) + 1
+            for fname, v in list(fields.items()):
+                if v is None:
+                    ft = next((f["t"] for f in rec["fields"] if f["name"] == fname), "")
+                    fields[fname] = self.obj("<indeterminate %s::%s #%d>" % (cls, fname, self.fresh_n), ft)
             return Rec(cls, fields)
         if len(tks) != 1:
             raise Decline("constructor of %s not available" % cls)
@@ -595,13 +609,33 @@ class SymEval:
         sub = self.open(ctor, vals, Rec(cls, fields))
         for i in ctor.get("inits", []):
             if i.get("member") and isinstance(i.get("init"), dict):
+                if strip(i["init"]).get("k") == "CXXDefaultInitExpr":
+                    continue   # default member initialiser, already evaluated above
+                if not i.get("written"):
+                    # implicit default construction of a class-type member
+                    try:
+                        sub.this_val.f[i["name"]] = sub.ev(i["init"])
+                    except Decline:
+                        pass
+                    continue
                 sub.this_val.f[i["name"]] = sub.ev(i["init"])
         if isinstance(ctor.get("body"), dict):
-            sub.exec_block(ctor["body"].get("c", []))
+            for st in ctor["body"].get("c", []):
+                try:
+                    sub.exec_stmt(st)
+                except Decline:
+                    # a call the engine cannot open (omp_init_lock(&lock_) ...): it may only affect the
+                    # members it names, which become indeterminate
+                    for x in walk(st):
+                        if x.get("k") == "MemberExpr" and x["ref"].get("dk") == "Field" and x["ref"]["name"] in sub.this_val.f:
+                            sub.this_val.f[x["ref"]["name"]] = None
         self.assumptions += sub.assumptions
         r = sub.this_val
-        if any(v is None for v in r.f.values()):
-            raise Decline("constructor of %s leaves fields indeterminate" % cls)
+        self.fresh_n = getattr(self, "fresh_n", 0) + 1
+        for fname, v in list(r.f.items()):
+            if v is None:
+                ft = next((f["t"] for f in rec["fields"] if f["name"] == fname), "")
+                r.f[fname] = self.obj("<indeterminate %s::%s #%d>" % (cls, fname, self.fresh_n), ft)
         return r
 
     # ---- calls ---------------------------------------------------------------------------------------
@@ -771,6 +805,8 @@ class SymEval:
                 if d.get("k") in ("Var", "Decomposition"):
                     if isinstance(d.get("init"), dict):
                         v = self.ev(d["init"])
+                        if not d.get("t", "").rstrip().endswith("&") and not d.get("t", "").rstrip().endswith("*"):
+                            v = self.materialize(v)     # a by-value declaration copies the current state
                     else:
                         v = self.obj("%s#%s" % (d["name"], d["did"]), d.get("t", ""))
                     self.memo[d["did"]] = v
